@@ -1713,16 +1713,23 @@ if __name__ == "__main__":
     st, lg = {}, []
     import os
     pk = path[:path.index("adb_shell/") + len("adb_shell")]
-    trees = []
+    trees = {}
     for dp, dn, fns in os.walk(pk):
         for fn_ in fns:
             if fn_.endswith(".py"):
+                full = os.path.join(dp, fn_)
+                mn = os.path.relpath(full, pk)[:-3].replace(os.sep, ".")
+                if mn.endswith("__init__"):
+                    mn = mn[:-len("__init__")].rstrip(".") or "__init__"
                 try:
-                    trees.append(ast.parse(open(os.path.join(dp, fn_)).read()))
+                    trees[mn] = t if os.path.abspath(full) == os.path.abspath(path) else ast.parse(open(full).read())
                 except SyntaxError:
                     pass
+    from .rename import canonical_names
+    for r in canonical_names(trees):
+        print("# renamed:", r, file=sys.stderr)
     SIGS.clear()
-    SIGS.update(build_signatures(trees))
+    SIGS.update(build_signatures(trees.values()))
     canonicalise(t, modname, KNOWN, st, lg)
     want = sys.argv[3:]
     for node in ast.walk(t):
